@@ -129,6 +129,8 @@ def _c04_runs(tier):
     rs.append(Run(C(sse2=0, **MIN), "harness/p_c04.c", ["--mode=widths"], group="min-widths"))
     rs.append(Run(C(sse2=0, **MIN), "harness/p_c04.c", ["--mode=dense"], group="host-dense"))
     rs.append(Run(C(**MIN), "harness/p_c04.c", ["--mode=big"], group="min-big"))
+    # a cache size whose derived block size (724) is not a multiple of 64: split points of the recursive solves fall inside words
+    rs.append(Run(C(L1=4096, L2=32768, L3=524288), "harness/p_c04.c", ["--mode=big"], group="L3-512K-big"))
     if tier == "thorough":
         rs.append(Run(C(**MIN), "harness/p_c04.c", ["--mode=units"], group="host-units"))
     rs.append(_omp_run("C04", 0x3c0, tier)); rs.append(_omp_run("C04", 0x3c0, tier, mincache=True))
